@@ -69,7 +69,7 @@ def score_rules(res, traces, verdicts, byid):
 
     def sig(t, rec):
         cl = rec["clause"]
-        if cl in ("ValidProfileRejected", "Winners", "Rounds") or cl.startswith("Error:"):
+        if cl in ("ValidProfileRejected", "Winners", "Rounds", "RoundNumber") or cl.startswith("Error:"):
             return "%s:%s" % (t["cfg"]["rule"], cl)
         return None         # limits, totals, tiebreak content: C05's and C10's matter
     judge_calls(res, PID, "RatingTrace", tr, sig_of=sig, what="score-ballot election: clause of C01")
